@@ -114,24 +114,25 @@ type Run struct {
 	db   *boltz.DbImpl
 	st   *Stores
 
-	mu        sync.Mutex
-	late      map[string]*lateListener
-	committed *Model
-	btx       *btxState
-	nbtx      int
-	ended     []*btxState
-	active    *attempt
-	lastDump  *Dump
-	ledger    *Ledger
-	viols     []Violation
-	ctxTx     map[boltz.MutateContext]*txRun
-	taskCtx   map[string]boltz.MutateContext // the context a task may reuse for its next call (only after a plain transaction)
-	everDel   map[IdRef]bool
-	pendTrace []IdRef
-	forceChk  bool
-	res       *RunResult
-	start     time.Time
-	txSeq     int
+	mu         sync.Mutex
+	late       map[string]*lateListener
+	committed  *Model
+	btx        *btxState
+	nbtx       int
+	ended      []*btxState
+	active     *attempt
+	lastDump   *Dump
+	ledger     *Ledger
+	viols      []Violation
+	ctxTx      map[boltz.MutateContext]*txRun
+	migVersion int                            // version of component "dsim" after the last successful Migrate
+	taskCtx    map[string]boltz.MutateContext // the context a task may reuse for its next call (only after a plain transaction)
+	everDel    map[IdRef]bool
+	pendTrace  []IdRef
+	forceChk   bool
+	res        *RunResult
+	start      time.Time
+	txSeq      int
 
 	// snap / conc profiles
 	openViews            int
@@ -314,6 +315,10 @@ func (r *Run) run() {
 	r.s.mainPath = r.path
 	r.s.Windows = r.plan.Profile == "conc"
 	r.s.YieldAtRUnlock = r.plan.Profile == "snap"
+	extraBase = nil
+	if r.plan.Schema&32 != 0 {
+		extraBase = []string{"base2"}
+	}
 	r.st = NewStores(r.plan.Schema)
 	if r.plan.Listeners {
 		registerListeners(r, StDepts, boltz.EntityStore[*Dept](r.st.Depts))
@@ -810,7 +815,7 @@ func propsForReject(why string) []string {
 		case strings.HasPrefix(w, "badgeNo-"), strings.HasPrefix(w, "memo-"): // (memo-dup, memo-empty)
 			set["C03"] = true
 			set["C15"] = true
-		case strings.HasPrefix(w, "dept-"), strings.HasPrefix(w, "mentor-"), strings.HasPrefix(w, "owner-"), strings.HasPrefix(w, "ref-"), strings.HasPrefix(w, "ticket-"), strings.HasPrefix(w, "review-"), strings.HasPrefix(w, "desk-"):
+		case strings.HasPrefix(w, "dept-"), strings.HasPrefix(w, "mentor-"), strings.HasPrefix(w, "owner-"), strings.HasPrefix(w, "ref-"), strings.HasPrefix(w, "ticket-"), strings.HasPrefix(w, "review-"), strings.HasPrefix(w, "desk-"), strings.HasPrefix(w, "sponsor-"):
 			set["C04"] = true
 		case strings.HasPrefix(w, "group-"), strings.HasPrefix(w, "link-"), strings.HasPrefix(w, "rc-"):
 			set["C05"] = true
@@ -830,7 +835,7 @@ func propsForReject(why string) []string {
 
 func (r *Run) execTx(t *Task, idx int, tx *TxPlan) {
 	switch tx.Mode {
-	case "update", "batch":
+	case "update", "batch", "migrate":
 		r.execWriteTx(t, idx, tx)
 	case "reopen":
 		r.execReopen(t)
@@ -994,6 +999,23 @@ func (r *Run) execWriteTx(t *Task, idx int, tx *TxPlan) {
 				}
 			}
 			err = r.db.Batch(callCtx, body)
+		} else if tx.Mode == "migrate" {
+			// the library's own transaction wrapper: the migrator records a failure on the step and still returns
+			// the version it was heading for (the usual style of a migrator); Migrate must fail and commit nothing
+			r.mu.Lock()
+			target := r.migVersion + 1
+			r.mu.Unlock()
+			err = boltz.NewMigratorManager(r.db).Migrate("dsim", target, func(step *boltz.MigrationStep) int {
+				if e := body(step.Ctx); e != nil {
+					step.SetError(e)
+				}
+				return target
+			})
+			if err == nil {
+				r.mu.Lock()
+				r.migVersion = target
+				r.mu.Unlock()
+			}
 		} else {
 			err = r.db.Update(callCtx, body)
 		}
